@@ -176,6 +176,86 @@ def classify(rec, code):
     return tags
 
 
+class HandTemporal:
+    """a hand-written temporal problem with its own plans (same attributes as GenTemporal where run() reads them)"""
+
+    def __init__(self, problem, plans, label):
+        self.problem = problem
+        self.plans = plans
+        self.label = label
+        self.fluents = list(problem.fluents)
+        self.actions = list(problem.actions)
+        self.objs = list(problem.all_objects)
+        self.em = problem.environment.expression_manager
+
+
+def shared_bounds_corpus():
+    """Conditions that share the same ABSOLUTE interval bounds with different open/closed ends: all pairs of the four
+    openness combinations, both declaration orders, as two conditions of one action and as conditions of two actions
+    running concurrently, with zero delays ([start,end]) and intermediate bounds ([start+1,end-1]).  Plans let an
+    instantaneous action establish / falsify the condition exactly at the shared lower bound, at the upper bound,
+    strictly before and strictly inside."""
+    from unified_planning.environment import Environment
+    from unified_planning.model import Fluent, Problem, InstantaneousAction, DurativeAction
+    from unified_planning.model.timing import StartTiming, EndTiming, TimeInterval
+    from unified_planning.plans import ActionInstance
+    out = []
+    flags = [(False, False), (True, False), (False, True), (True, True)]
+    pairs = [(a, b) for a in flags for b in flags if a != b]          # ordered pairs = both declaration orders
+    for k, (fa, fb) in enumerate(pairs):
+        for two_actions in (False, True):
+            for inner in (False, True):
+                if (k + two_actions + inner) % 2 and k >= 4:
+                    continue                                            # half of the combinations for the later pairs
+                env = Environment()
+                tm, em = env.type_manager, env.expression_manager
+                p = Problem("shared-bounds", env)
+                f = Fluent("f", tm.BoolType(), environment=env)      # the condition that changes at the bounds
+                t = Fluent("t", tm.BoolType(), environment=env)      # always true
+                g = Fluent("g", tm.BoolType(), environment=env)
+                g2 = Fluent("g2", tm.BoolType(), environment=env)
+                p.add_fluent(f, default_initial_value=False); p.add_fluent(t, default_initial_value=True)
+                p.add_fluent(g, default_initial_value=False); p.add_fluent(g2, default_initial_value=not two_actions)
+
+                def iv(fl):
+                    lo = StartTiming(1) if inner else StartTiming()
+                    hi = (EndTiming() - 1) if inner else EndTiming()
+                    return TimeInterval(lo, hi, fl[0], fl[1])
+                d1 = DurativeAction("d1", _env=env)
+                d1.set_fixed_duration(4)
+                d1.add_effect(EndTiming(), g, True)
+                d2 = DurativeAction("d2", _env=env)
+                d2.set_fixed_duration(4)
+                d2.add_effect(EndTiming(), g2, True)
+                # the first declared condition reads t, the second f, and a twin problem swaps them (k runs over both orders)
+                first, second = (t, f) if k % 2 == 0 else (f, t)
+                d1.add_condition(iv(fa), first)
+                (d2 if two_actions else d1).add_condition(iv(fb), second)
+                on = InstantaneousAction("on", _env=env)
+                on.add_effect(f, True)
+                off = InstantaneousAction("off", _env=env)
+                off.add_effect(f, False)
+                p.add_action(d1)
+                if two_actions:
+                    p.add_action(d2)
+                p.add_action(on); p.add_action(off)
+                p.add_goal(g); p.add_goal(g2)
+                lo = F(2) if inner else F(1)
+                hi = F(4) if inner else F(5)
+                base = [(F(1), ActionInstance(d1), F(4))] + ([(F(1), ActionInstance(d2), F(4))] if two_actions else [])
+                plans = [
+                    base + [(lo, ActionInstance(on), None)],                                           # established exactly at the lower bound
+                    base + [(F(1, 2), ActionInstance(on), None)],                                      # established before
+                    base + [(F(1, 2), ActionInstance(on), None), (lo, ActionInstance(off), None)],     # falsified exactly at the lower bound
+                    base + [(F(1, 2), ActionInstance(on), None), (hi, ActionInstance(off), None)],     # falsified exactly at the upper bound
+                    base + [(F(1, 2), ActionInstance(on), None), (F(3), ActionInstance(off), None)],   # falsified strictly inside
+                    base + [(lo, ActionInstance(on), None), (hi, ActionInstance(off), None)],          # both bounds
+                    base + [(hi, ActionInstance(on), None)],                                           # established only at the upper bound
+                ]
+                out.append(HandTemporal(p, plans, "shared-bounds-%d-%s-%s" % (k, "two" if two_actions else "one", "inner" if inner else "outer")))
+    return out
+
+
 def run(ctx):
     import unified_planning as up
     ok_proofs = ctx.check_props(extra=["theories/Corr/Corr_C05.v"])
@@ -189,17 +269,22 @@ def run(ctx):
              "duration_kinds": {}, "left_open_conditions": 0, "intermediate_conditions": 0, "forall_effects": 0,
              "conditional_effects": 0, "incdec_effects": 0}
     nontriv = set()
-    for pi in range(nprob):
-        gen = GenTemporal(rng)
+    hand = shared_bounds_corpus()
+    stats["hand_problems"] = len(hand)
+    for pi in range(len(hand) + nprob):
+        gen = hand[pi] if pi < len(hand) else GenTemporal(rng)
         p = gen.problem
         valid0, raised0, _ = tt_validate(p, [])
         if raised0 is not None and "cannot establish" in raised0:
             stats["skipped"]["unsupported-kind"] = stats["skipped"].get("unsupported-kind", 0) + 1
             continue
-        plans, execs = build_plans(gen, rng, nplans)
-        choose_goals(gen, rng, execs)
+        if pi < len(hand):
+            plans, execs, pool = [], [], []
+        else:
+            plans, execs = build_plans(gen, rng, nplans)
+            choose_goals(gen, rng, execs)
+            pool = [s for s, _ in execs]
         # final plan set: executable ones, their variants, the rest
-        pool = [s for s, _ in execs]
         final = []
         for s in pool[:nplans // 2]:
             final.append(s)
@@ -214,6 +299,8 @@ def run(ctx):
         final += rest[:max(0, nplans - len(final) - 1)]
         final.append([])
         final = final[:nplans]
+        if pi < len(hand):
+            final = list(gen.plans)
         ser = SerTemporal(p)
         try:
             text = ser.render()
